@@ -320,7 +320,7 @@ def validate_traces(ck, wd, traces, maxn):
             _json.dump(trs + demos, f)
         cfg = os.path.join(wd, "trace_%s.cfg" % kind)
         with open(cfg, "w") as f:
-            f.write("SPECIFICATION TraceSpec\nCONSTANTS\n  Kind = \"%s\"\n  MaxN = %d\n  Depth = 0\n  Batches <- SomeBatches\n"
+            f.write("SPECIFICATION TraceSpec\nCONSTANTS\n  Kind = \"%s\"\n  MaxN = %d\n  NegArgs = 2\n  Depth = 0\n  Batches <- SomeBatches\n"
                     "INVARIANT ViewsAgree\nCHECK_DEADLOCK FALSE\n" % (kind, maxn))
         r = tlc.run_tlc("GraphsTrace", cfg, env={"TRACE_FILE": path}, workers=4, heap="3g", timeout=1800)
         ck.states += r["distinct"]
@@ -341,8 +341,8 @@ def validate_traces(ck, wd, traces, maxn):
         ck.count("helper_trace_events_%s" % kind, sum(len(t["events"]) for t in trs))
 
 
-def write_cfg(path, kind, maxn, depth, batches="SomeBatches", emit=True, mc=False):
-    lines = ["SPECIFICATION Spec", "CONSTANTS", '  Kind = "%s"' % kind, "  MaxN = %d" % maxn,
+def write_cfg(path, kind, maxn, depth, batches="SomeBatches", emit=True, mc=False, neg=2):
+    lines = ["SPECIFICATION Spec", "CONSTANTS", '  Kind = "%s"' % kind, "  MaxN = %d" % maxn, "  NegArgs = %d" % neg,
              "  Depth = %d" % depth, "  Batches <- %s" % batches, "CHECK_DEADLOCK FALSE"]
     if mc:
         lines += ["INVARIANT TypeOK", "INVARIANT ViewsAgree", "PROPERTY RefusalIsNoop",
@@ -372,11 +372,18 @@ def main(argv=None):
         write_cfg(cfg, kind, mcn, 0, batches="AllBatches" if mcn == 3 else "SomeBatches", emit=False, mc=True)
         ck.model("Graphs", cfg)
         # 2. every behaviour of depth d, replayed
-        depth = 2 if q else 3
         cfg = os.path.join(wd, "ex_%s.cfg" % kind)
-        write_cfg(cfg, kind, maxn, depth)
+        write_cfg(cfg, kind, maxn, 2)
         behs = ck.export("Graphs", cfg, heap="6g", timeout=3000)
-        ck.count("behaviours_exhaustive_depth%d_%s" % (depth, kind), len(behs))
+        ck.count("behaviours_exhaustive_depth2_%s" % kind, len(behs))
+        if not q:
+            # one call deeper with the non-negative arguments only (negative ones: depth 2 above and the walks)
+            cfg = os.path.join(wd, "ex3_%s.cfg" % kind)
+            write_cfg(cfg, kind, maxn, 3, neg=0)
+            more = ck.export("Graphs", cfg, heap="6g", timeout=3000)
+            ck.count("behaviours_exhaustive_depth3_nonnegative_%s" % kind, len(more))
+        else:
+            more = []
         # 3. long random walks
         walks = 200 if q else 4000
         wdepth = 10 if q else 15
@@ -388,7 +395,9 @@ def main(argv=None):
         ck.count("walks_depth%d_%s" % (wdepth, kind), len(sims))
         if len(behs) == 0 or len(sims) == 0:
             raise tlc.MachineryError("no behaviours exported for %s" % kind)
-        results = common.pmap(_replay_short, behs) + common.pmap(_replay_long, sims)
+        results = common.pmap(_replay_short, behs) + common.pmap(_replay_long, more + sims)
+        nshort = len(behs)
+        behs = behs + more
         for j, beh in enumerate(behs + sims):
             ok, why = results[j]
             nb += 1
